@@ -111,7 +111,85 @@ func StringsOver(alpha []rune, maxLen int) []string {
 var Tokens = []string{"*", "?", "[", "]", "!", "^", "-", "\\", "/", ".", "a", "b", "c", "A", "0", ":", "(", "|", ")", "@", "+",
 	"[:alpha:]", "[:digit:]", "[:upper:]", "[:lower:]", "[:space:]", "[:punct:]", "[:alnum:]", "[:xdigit:]", "[:word:]",
 	"[a-c]", "[!a-c]", "[]a]", "[a-]", "[[:alpha:]]", "[![:digit:]]", "[[:alpha:][:digit:]]", "\\*", "\\[", "\\\\",
-	"@(", "*(", "+(", "?(", "!(", "é", "**", "**/", "/.", "[a-b", "[\\]]", "[\\a]"}
+	"@(", "*(", "+(", "?(", "!(", "é", "**", "**/", "/.", "[a-b", "[\\]]", "[\\a]",
+	// every regexp-special ASCII rune also as a literal, plus runes sorting around the metacharacters
+	"$", "{", "}", "Z", "9", " ", "~", ",", "=", "#", "\\$", "\\^", "\\.", "\\(", "\\{"}
+
+// BracketElems are the building blocks of the bracket-expression enumeration: runes sorting below, between and
+// above the markers '!' (33) '-' (45) '^' (94), escapes, and class elements.
+var BracketElems = []string{"-", "a", "c", "Z", "9", ".", " ", "^", "!", "]", "$", "\\]", "\\-", "\\a", "[", "[:digit:]", "/"}
+
+// NumBrackets(l) = number of bracket patterns with l elements (3 negation forms x len(elems)^l x 2 tails).
+func NumBrackets(l int) int {
+	n := 6
+	for i := 0; i < l; i++ {
+		n *= len(BracketElems)
+	}
+	return n
+}
+
+// Bracket returns the idx-th bracket pattern with l elements: "[" neg e1..el "]" tail.
+func Bracket(l, idx int) string {
+	tail := []string{"", "x"}[idx%2]
+	idx /= 2
+	neg := []string{"", "!", "^"}[idx%3]
+	idx /= 3
+	var sb strings.Builder
+	sb.WriteString("[" + neg)
+	for i := 0; i < l; i++ {
+		sb.WriteString(BracketElems[idx%len(BracketElems)])
+		idx /= len(BracketElems)
+	}
+	sb.WriteString("]" + tail)
+	return sb.String()
+}
+
+// ClassNames: the valid class names, every substring of them, misspellings (one rune dropped, doubled, upper-cased),
+// the empty name, a space, and unrelated words. Pinned and deterministic.
+func ClassNames() []string {
+	valid := []string{"alnum", "alpha", "ascii", "blank", "cntrl", "digit", "graph", "lower", "print", "punct", "space", "upper", "word", "xdigit"}
+	seen := map[string]bool{}
+	var out []string
+	add := func(n string) {
+		if !seen[n] {
+			seen[n] = true
+			out = append(out, n)
+		}
+	}
+	for _, v := range valid {
+		add(v)
+	}
+	for _, n := range []string{"", " ", ":", "foo", "alpha ", " alpha", "alpha digit", "a-z", "alpha:", "ALPHA", "Alpha", "é"} {
+		add(n)
+	}
+	for _, v := range valid {
+		for i := 0; i < len(v); i++ {
+			for j := i + 1; j <= len(v); j++ {
+				add(v[i:j])
+			}
+			add(v[:i] + v[i+1:])          // rune dropped
+			add(v[:i] + v[i:i+1] + v[i:]) // rune doubled
+		}
+		add(strings.ToUpper(v))
+	}
+	return out
+}
+
+// ClassPatterns wraps a class name in the two shapes used by the sweeps.
+func ClassPatterns(name string) []string {
+	return []string{"[[:" + name + ":]]", "[a[:" + name + ":]0-9]x"}
+}
+
+// SweepRunes: every ASCII rune except NUL and newline (the oracle files are line based), plus a few multi-byte runes.
+func SweepRunes() []rune {
+	var out []rune
+	for c := rune(1); c < 128; c++ {
+		if c != '\n' {
+			out = append(out, c)
+		}
+	}
+	return append(out, 'é', 'ß', '中', '\u212a', '😀')
+}
 
 // GenTokens draws a pattern of 1..maxTok tokens.
 func GenTokens(r *rand.Rand, maxTok int) string {
@@ -256,4 +334,13 @@ func ObserveRegexp(pat string, mode pattern.Mode) (CodeObs, *regexp.Regexp) {
 		return CodeObs{K: "nocompile", Text: Runes(text), Msg: cerr.Error()}, nil
 	}
 	return CodeObs{K: "ok", Text: Runes(text)}, rx
+}
+
+// RunesToString is the inverse of Runes.
+func RunesToString(rs []int) string {
+	var sb strings.Builder
+	for _, r := range rs {
+		sb.WriteRune(rune(r))
+	}
+	return sb.String()
 }
